@@ -95,6 +95,12 @@ def write_replay(prop: str, seed: int, violation: Dict[str, Any]) -> str:
         'minimised_from': violation.get('minimised_from'),
         'payload': violation['payload'],
     }
+    # where the violation came from: the task (tier, index) regenerates the unminimised case from the seed alone; the
+    # unminimised payload and its detail are kept too, because oracles that judge against recorded ground truth can
+    # be misled by a minimised world whose truth was recorded for the larger one
+    for k in ('task_index', 'tier', 'original_detail', 'original_payload'):
+        if violation.get(k) is not None:
+            doc[k] = violation[k]
     with open(path, 'w') as f:
         json.dump(doc, f, indent=1, sort_keys=True, default=str)
     return path
@@ -266,6 +272,11 @@ def do_check(mod: Any, prop: str, args: Any) -> int:
             if status != 'ok' or sig not in [x['signature'] for x in res.get('violations', [])]:
                 print(f'HARNESS-ERROR: violation {sig} (task {idx}) does not replay: {status} {str(res)[-800:]}')
                 return 2
+        v['task_index'] = idx
+        v['tier'] = tier
+        if v['payload'] is not violations[sig][1]['payload'] and v['payload'] != violations[sig][1]['payload']:
+            v['original_payload'] = violations[sig][1]['payload']
+            v['original_detail'] = violations[sig][1].get('detail')
         path = write_replay(prop, seed, v)
         reported.append((sig, path, v.get('detail', '')))
         out_lines.append(f'VIOLATION property={prop} replay={path}')
